@@ -283,7 +283,13 @@ class OperatorNode(ASTNode):
         op = self.op_map.get(xop, xop)
 
         if self.type == Token.OP_PRE:
-            return self.value + args[0].emit
+            ss = self.value + args[0].emit
+            parent = self.parent
+            if (isinstance(parent, OperatorNode) and parent.value == '^' and
+                    parent.children[0] is self):
+                # python binds ** tighter than a unary minus on its left
+                ss = "(" + ss + ")"
+            return ss
 
         parent = self.parent
         if op == '%':
